@@ -14,7 +14,9 @@ import (
 	"path/filepath"
 	"regexp"
 	"strconv"
+	"strings"
 	"time"
+	"unicode/utf8"
 
 	"golang.org/x/telemetry/internal/telemetry"
 )
@@ -40,7 +42,7 @@ func DayOf(s string) (int, bool) {
 	m, _ := strconv.Atoi(s[5:7])
 	d, _ := strconv.Atoi(s[8:10])
 	t := time.Date(y, time.Month(m), d, 0, 0, 0, 0, time.UTC)
-	if t.Year() != y || int(t.Month()) != m || t.Day() != d || y < 1970 {
+	if t.Year() != y || int(t.Month()) != m || t.Day() != d || y < 1970 || y > 9000 {
 		return 0, false
 	}
 	return int(t.Unix() / 86400), true
@@ -56,7 +58,14 @@ type ModeFile struct {
 }
 
 var badDates = []string{"2024-13-01", "2023-02-30", "yesterday", "2024-1-1", "20240101", "2024-01-01T00:00:00Z", "2024-01-01 x", "01/02/2024", "-", "2024-01-0"}
-var pads = [][2]string{{"", "\n"}, {" ", ""}, {"", " \n"}, {"\t", "\r\n"}, {"\n", "\n\n"}, {"  ", "  "}}
+
+// white space around the text: ASCII blanks, tabs, line ends, vertical tab and
+// form feed, the Unicode spaces (NEL, no-break space, em space, ideographic
+// space, line separator) and a very long run of blanks
+var pads = [][2]string{{"", "\n"}, {" ", ""}, {"", " \n"}, {"\t", "\r\n"}, {"\n", "\n\n"}, {"  ", "  "},
+	{"", "\u00a0"}, {"\u0085", "\n"}, {"\u2003", "\u3000"}, {"\v", "\f"}, {"", "\u2028\n"}, {longBlank, "\n"}, {"", longBlank}}
+
+var longBlank = strings.Repeat(" ", 70000)
 
 // ModeBytes gives concrete bytes of an abstract mode-file class.
 func ModeBytes(mf ModeFile, variant int) []byte {
@@ -84,6 +93,17 @@ func WriteMode(dir string, mf ModeFile, variant int) error {
 		return os.Mkdir(p, 0777)
 	}
 	return os.WriteFile(p, ModeBytes(mf, variant), 0666)
+}
+
+// isWhiteSpace: the code points with the Unicode White_Space property (the
+// harness' own table).
+func isWhiteSpace(r rune) bool {
+	switch {
+	case r >= 0x09 && r <= 0x0d, r == 0x20, r == 0x85, r == 0xa0, r == 0x1680, r >= 0x2000 && r <= 0x200a,
+		r == 0x2028, r == 0x2029, r == 0x202f, r == 0x205f, r == 0x3000:
+		return true
+	}
+	return false
 }
 
 func isASCIISpace(b byte) bool {
@@ -121,11 +141,19 @@ func Classify(dir string) ModeFile {
 		return ModeFile{K: "unreadable", D: NoDate}
 	}
 	s := data
-	for len(s) > 0 && isASCIISpace(s[0]) {
-		s = s[1:]
+	for len(s) > 0 {
+		r, n := utf8.DecodeRune(s)
+		if !isWhiteSpace(r) || (r == utf8.RuneError && n == 1) {
+			break
+		}
+		s = s[n:]
 	}
-	for len(s) > 0 && isASCIISpace(s[len(s)-1]) {
-		s = s[:len(s)-1]
+	for len(s) > 0 {
+		r, n := utf8.DecodeLastRune(s)
+		if !isWhiteSpace(r) || (r == utf8.RuneError && n == 1) {
+			break
+		}
+		s = s[:len(s)-n]
 	}
 	mf := ModeFile{K: "text", D: NoDate, Pad: len(s) != len(data)}
 	if i := bytes.IndexByte(s, ' '); i >= 0 {
